@@ -7,9 +7,10 @@ MInit == Init /\ hist = <<>>
 MNext ==
   /\ Len(hist) < Depth
   /\ \E w \in {IF Len(hist) = Depth - 1 /\ Pick(1..2) = 1 THEN 13 ELSE Pick(1..12)}, p \in {IF Pick(1..3) = 1 THEN Pick(Paths) ELSE Pick({"direct", "forward"})}, op \in {Pick(Ops)},
-        v \in {IF Pick(1..6) = 1 THEN "unknown" ELSE IF Pick(1..3) = 1 THEN "second" ELSE "valid"}, n \in {IF Pick(1..4) = 1 THEN Pick(Amts) ELSE Pick({1, 2})}, o \in {IF Pick(1..4) = 1 THEN Pick(Options) ELSE Pick({1, 3, 12})} :
+        v \in {IF Pick(1..6) = 1 THEN "unknown" ELSE IF Pick(1..3) = 1 THEN "second" ELSE "valid"}, n \in {IF Pick(1..4) = 1 THEN Pick(Amts) ELSE Pick({1, 2})}, o \in {IF Pick(1..3) = 1 THEN Pick(Options) ELSE Pick({1, 3, 12})} :
        \/ w = 11 /\ \E vv \in {IF Pick(1..3) = 1 THEN "unknown" ELSE "valid"}, o2 \in {IF Pick(1..4) = 1 THEN Pick(Options) ELSE Pick({2, 4})} :
-              Tx2Eff(vv, o, o2) /\ last' = [act |-> "Tx2", res |-> Res(Tx2OK(vv, o, o2)), val |-> vv, opt |-> o, opt2 |-> o2]
+              \E k2 \in {Pick({"plain", "weighted"})} :
+              Tx2Eff(vv, o, o2) /\ last' = [act |-> "Tx2", res |-> Res(Tx2OK(vv, o, o2)), val |-> vv, opt |-> o, opt2 |-> o2, kind2 |-> k2]
        \/ w <= 10 /\ TxEff(p, op, v, n, o) /\ last' = [act |-> "Tx", res |-> Res(TxOK(p, op, v, n, o)), path |-> p, op |-> op, val |-> v, amt |-> n, opt |-> o]
        \/ w = 12 /\ ExpireEff /\ last' = [act |-> "Expire", res |-> "ok"]
        (* a slash ends the behaviour: only as the last step *)
